@@ -224,6 +224,18 @@ def browse (sp : Space) (s : Sess) (n dir ty : Nat) (sub : Bool) (mask rmask req
   | none => some (s, ⟨.nodeUnknown, none, none⟩)
   | some ds => toResult sp.lastMod s ds 0 (clampMax req)
 
+/-- `browse_nodes`: the nodes of one Browse request in order, each may add a continuation point -/
+def browseMany (sp : Space) (dir ty : Nat) (sub : Bool) (mask rmask req : Nat) :
+    Sess → List Nat → Option (Sess × List BrowseResult)
+  | s, [] => some (s, [])
+  | s, n :: ns =>
+    match browse sp s n dir ty sub mask rmask req with
+    | none => none
+    | some (s', r) =>
+      match browseMany sp dir ty sub mask rmask req s' ns with
+      | none => none
+      | some (s'', rs) => some (s'', r :: rs)
+
 /-- `remove_expired_browse_continuation_points` -/
 def removeExpired (lastMod : Nat) (cps : List CP) : List CP :=
   cps.filter fun c => lastMod ≤ c.lm
@@ -365,6 +377,7 @@ def applyMut (bumpOnDelete : Bool) (sp : Space) : Mut → Space × MRes
 inductive Op where
   | mutate (m : Mut)
   | browse (n dir ty : Nat) (sub : Bool) (mask rmask req : Nat)
+  | browsem (ns : List Nat) (dir ty : Nat) (sub : Bool) (mask rmask req limit : Nat)  -- several nodes, one request
   | next (ids : List Nat)
   | release (ids : List Nat)
 deriving Repr, DecidableEq
@@ -375,6 +388,7 @@ inductive Res where
   | nexts (rs : List BrowseResult)
   | unit
   | fault                          -- ServiceFault BadNothingToDo
+  | tooMany                        -- ServiceFault BadTooManyOperations
   | panic
 deriving Repr, DecidableEq
 
@@ -391,6 +405,13 @@ def stepWith (bumpOnDelete : Bool) (st : St) : Op → St × Res
     match browse st.sp st.se n dir ty sub mask rmask req with
     | none => (st, .panic)
     | some (se, r) => ({ st with se := se }, .browse r)
+  | .browsem ns dir ty sub mask rmask req limit =>
+    -- `max_nodes_per_browse` is the operational limit of the server
+    if ns.isEmpty then (st, .fault) else
+    if limit < ns.length then (st, .tooMany) else
+    match browseMany st.sp dir ty sub mask rmask req st.se ns with
+    | none => (st, .panic)
+    | some (se, rs) => ({ st with se := se }, .nexts rs)
   | .next ids =>
     if ids.isEmpty then (st, .fault) else
     match nextMany st.sp.lastMod { st.se with cps := removeExpired st.sp.lastMod st.se.cps } ids with
